@@ -55,7 +55,7 @@ func (o Op) String() string {
 	return o.Kind
 }
 
-var answers = []string{"L1", "L2", "same", "empty", "connerr", "404", "500", "eof0", "eofmid", "eofline", "eofend", "html", "nul1", "nulN"}
+var answers = []string{"L1", "L2", "same", "empty", "connerr", "404", "500", "204", "206", "eof0", "eofmid", "eofline", "eofend", "html", "nul1", "nulN"}
 
 // Answer pairs of a scheduled refresh.  The per-answer detail is exercised by
 // the forced refreshes; the scheduled ones add the interplay of the two sides
@@ -203,6 +203,12 @@ func (t *transport) RoundTrip(req *http.Request) (*http.Response, error) {
 		return mk(404, "||c1.example^\n", -1), nil
 	case "500":
 		return mk(500, "||c1.example^\n", -1), nil
+	case "204":
+		// "No Content": a success-class status that is not 200.
+		return mk(204, "", -1), nil
+	case "206":
+		// "Partial Content": a fragment of the other list version.
+		return mk(206, "||c1.example^\n||fragment.example^\n", -1), nil
 	case "eof0":
 		return mk(200, cutBody, 0), nil
 	case "eofmid":
